@@ -355,8 +355,10 @@ impl Write for MockStream {
         if let Some(r) = g.as_mut() {
             let mut reply = Reply::default();
             r.on_client_bytes(&accepted, &mut reply);
-            drop(g);
+            // deliver while still holding the reactor lock: the order of the broker's frame log
+            // (written under that lock) must be the order of the bytes
             net.deliver(reply);
+            drop(g);
         }
         Ok(accepted.len())
     }
